@@ -145,6 +145,8 @@ func (sr *srcRenderer) vexpr(v any) string {
 		return "(" + sr.vexpr(m["e"]) + ")"
 	case "w1":
 		return "r.W(" + sr.vexpr(m["e"]) + ")"
+	case "b1":
+		return "r.B(" + sr.vexpr(m["e"]) + ")"
 	}
 	panic("unknown value expression " + canon(m))
 }
